@@ -20,9 +20,9 @@ import (
 //
 // Structural exception classes (relations between a run-time type and a construction-time invariant):
 //
-//	E-TYPEPARAM  the asserted type is a bare type parameter (or slice/map of type parameters) of the enclosing
-//	             generic declaration: typed wrappers and user callbacks (A4); NewTypedScopeSchema's reflect.Type
-//	             comparison is re-verified
+//	E-TYPEPARAM  the asserted type is a bare type parameter of the enclosing generic declaration: typed wrappers
+//	             and user callbacks (A4); NewTypedScopeSchema's reflect.Type comparison is re-verified. Slices and
+//	             maps of type parameters are NOT excepted: they are built from the children's ReflectedType()
 //	E-DUCK       operand is .Interface() of a reflect.Value obtained via MethodByName(...).Call / FieldByName /
 //	             MapIndex inside a ValidateCompatibility implementation
 //	E-WORKMAP    assertion to map[string]any of an element of the working map in applySubObjectDefaultValues
@@ -449,27 +449,17 @@ func (c *Ctx) structMappedTypeArg(v ssa.Value, init *ssa.Function, depth int) ty
 	return nil
 }
 
-// exceptTypeParam (E-TYPEPARAM): asserted type is a bare type parameter, or slice/map of type parameters, of the
-// enclosing generic declaration.
+// exceptTypeParam (E-TYPEPARAM): asserted type is a bare type parameter of the enclosing generic declaration.
 func (c *Ctx) exceptTypeParam(fn *ssa.Function, ta *ssa.TypeAssert) (string, bool) {
-	if !onlyTypeParams(ta.AssertedType) {
+	// only the bare type parameter: a slice or map OF type parameters is built at run time from the children's
+	// ReflectedType(), which no constructor ties to the type arguments (TypedObjectSchema.Any() is a TypedType[any]
+	// whose reflected type is the struct): such an assertion needs the comma-ok form
+	if _, bare := ta.AssertedType.(*types.TypeParam); !bare {
 		return "", false
 	}
-	return "E-TYPEPARAM: the asserted type is (built from) a type parameter of the enclosing generic declaration; " +
+	return "E-TYPEPARAM: the asserted type is a type parameter of the enclosing generic declaration; " +
 		"the relation between the type argument and the schema's reflected type is fixed by the typed constructor (NewTypedObject, " +
-		"NewTypedScopeSchema, NewTypedListSchema, NewTypedMapSchema) or is the user's callback contract (A4)", true
-}
-
-func onlyTypeParams(t types.Type) bool {
-	switch x := t.(type) {
-	case *types.TypeParam:
-		return true
-	case *types.Slice:
-		return onlyTypeParams(x.Elem())
-	case *types.Map:
-		return onlyTypeParams(x.Key()) && onlyTypeParams(x.Elem())
-	}
-	return false
+		"NewTypedScopeSchema) or is the user's callback contract (A4)", true
 }
 
 // exceptDuck (E-DUCK): operand is reflect.Value.Interface() of a value obtained by reflection on the argument
